@@ -112,17 +112,17 @@ impl AckDeadline {
     /// instant of the deadline, ns
     pub closed spec fn t(&self) -> int { self.time.v() }
 
-//@fn src/subscriptions/pulled_message.rs AckDeadline::new tags=C04,C05
+//@fn src/subscriptions/pulled_message.rs AckDeadline::new tags=C04
 //@ ret r
 //@ requires time.v() >= epoch().v()
 //@ requires time.v() - epoch().v() < 0x4000_0000_0000_0000
 //@ requires epoch().v() + (time.v() - epoch().v()) + grid_ns() <= instant_max()
 //@ # the statement's lower bound "not before that instant"
-//@ ensures[C04,C05] r.t() >= time.v()
+//@ ensures[C04] r.t() >= time.v()
 //@ # weaker lower bound kept separately so that an early firing larger than the 1us truncation still fails a passing clause
-//@ ensures[C04,C05] r.t() > time.v() - 1000
+//@ ensures[C04] r.t() > time.v() - 1000
 //@ # upper bound: "no later than a fixed sub-second slack"
-//@ ensures[C04,C05] r.t() < time.v() + grid_ns()
+//@ ensures[C04] r.t() < time.v() + grid_ns()
 //@end
 
 //@fn src/subscriptions/pulled_message.rs AckDeadline::time tags=C04
@@ -137,7 +137,7 @@ impl PulledMessage {
     pub closed spec fn msg(&self) -> Arc<TopicMessage> { self.message }
     pub closed spec fn attempt(&self) -> u16 { self.delivery_attempt }
 
-//@fn src/subscriptions/pulled_message.rs PulledMessage::new tags=C03,C04
+//@fn src/subscriptions/pulled_message.rs PulledMessage::new tags=C03
 //@ ret r
 //@ ensures r.msg() == message, r.id() == ack_id, r.dl() == deadline, r.attempt() == delivery_attempt
 //@end
@@ -147,12 +147,12 @@ impl PulledMessage {
 //@ ensures *r == self.msg()
 //@end
 
-//@fn src/subscriptions/pulled_message.rs PulledMessage::into_message tags=C01,C05
+//@fn src/subscriptions/pulled_message.rs PulledMessage::into_message tags=C01
 //@ ret r
 //@ ensures r == self.msg()
 //@end
 
-//@fn src/subscriptions/pulled_message.rs PulledMessage::ack_id tags=C02,C03
+//@fn src/subscriptions/pulled_message.rs PulledMessage::ack_id tags=C03
 //@ ret r
 //@ ensures r == self.id()
 //@end
@@ -162,7 +162,7 @@ impl PulledMessage {
 //@ ensures *r == self.dl()
 //@end
 
-//@fn src/subscriptions/pulled_message.rs PulledMessage::expiration_key tags=C02,C04
+//@fn src/subscriptions/pulled_message.rs PulledMessage::expiration_key tags=C04
 //@ ret r
 //@ ensures r == (self.dl(), self.id())
 //@end
@@ -289,16 +289,16 @@ impl OutstandingMessageTracker {
         }
     }
 
-//@fn src/subscriptions/outstanding.rs OutstandingMessageTracker::new tags=C02,C03
+//@fn src/subscriptions/outstanding.rs OutstandingMessageTracker::new tags=C03
 //@ ret r
 //@ ensures r.wf(), r@ == Leases::empty()
 //@end
 
-//@fn src/subscriptions/outstanding.rs OutstandingMessageTracker::add tags=C02,C03,C04
+//@fn src/subscriptions/outstanding.rs OutstandingMessageTracker::add tags=C03
 //@ requires old(self).wf()
 //@ requires[C03] !old(self)@.dom().contains(message.id())
-//@ ensures[C02,C03,C04] final(self).wf()
-//@ ensures[C03,C04] final(self)@ == old(self)@.insert(message.id(), message)
+//@ ensures[C03] final(self).wf()
+//@ ensures[C03] final(self)@ == old(self)@.insert(message.id(), message)
 //@end
 
 //@fn src/subscriptions/outstanding.rs OutstandingMessageTracker::next_expiration tags=C04
@@ -312,24 +312,24 @@ impl OutstandingMessageTracker {
 //@ ensures[C04] r.is_some() ==> forall|id: AckId| self@.dom().contains(id) ==> r.unwrap().t() <= self@[id].dl().t()
 //@end
 
-//@fn src/subscriptions/outstanding.rs OutstandingMessageTracker::take_expired tags=C02,C04
+//@fn src/subscriptions/outstanding.rs OutstandingMessageTracker::take_expired tags=C04
 //@ ret result
 //@ requires old(self).wf()
-//@ ensures[C02,C04] final(self).wf()
+//@ ensures[C04] final(self).wf()
 //@ # exactly the leases with deadline <= time leave the tracker
 //@ ensures[C04] forall|id: AckId| #![trigger final(self)@.dom().contains(id)] #![trigger old(self)@.dom().contains(id)] final(self)@.dom().contains(id) <==> (old(self)@.dom().contains(id) && time.v() < old(self)@[id].dl().t())
-//@ ensures[C02,C04] forall|id: AckId| final(self)@.dom().contains(id) ==> final(self)@[id] == old(self)@[id]
-//@ ensures[C02,C04] taken_ok(result@, old(self)@, time.v())
-//@ ensures[C01,C04] result.len() + final(self)@.dom().len() == old(self)@.dom().len()
+//@ ensures[C04] forall|id: AckId| final(self)@.dom().contains(id) ==> final(self)@[id] == old(self)@[id]
+//@ ensures[C04] taken_ok(result@, old(self)@, time.v())
+//@ ensures[C01] result.len() + final(self)@.dom().len() == old(self)@.dom().len()
 //@ # C01: every lease that leaves the tracker is handed back (nothing is dropped on expiry)
-//@ ensures[C01,C04] forall|id: AckId| old(self)@.dom().contains(id) && !final(self)@.dom().contains(id) ==> exists|i: int| 0 <= i < result.len() && (#[trigger] result[i]).id() == id
+//@ ensures[C01] forall|id: AckId| old(self)@.dom().contains(id) && !final(self)@.dom().contains(id) ==> exists|i: int| 0 <= i < result.len() && (#[trigger] result[i]).id() == id
 //@ loop 1 invariant self.wf()
 //@ loop 1 invariant forall|id: AckId| self@.dom().contains(id) ==> old(self)@.dom().contains(id) && self@[id] == old(self)@[id]
 //@ loop 1 invariant forall|id: AckId| old(self)@.dom().contains(id) && !self@.dom().contains(id) ==> old(self)@[id].dl().t() <= time.v()
 //@ loop 1 invariant taken_ok(result@, old(self)@, time.v())
 //@ loop 1 invariant forall|i: int| 0 <= i < result.len() ==> !self@.dom().contains(#[trigger] result[i].id())
-//@ loop 1 invariant result.len() + self@.dom().len() == old(self)@.dom().len()
-//@ loop 1 invariant forall|id: AckId| old(self)@.dom().contains(id) && !self@.dom().contains(id) ==> exists|i: int| 0 <= i < result.len() && (#[trigger] result[i]).id() == id
+//@ loop 1 invariant[C01] result.len() + self@.dom().len() == old(self)@.dom().len()
+//@ loop 1 invariant[C01] forall|id: AckId| old(self)@.dom().contains(id) && !self@.dom().contains(id) ==> exists|i: int| 0 <= i < result.len() && (#[trigger] result[i]).id() == id
 //@ loop 1 ensures self.expirations@.len() == 0
 //@ loop 1 decreases self.expirations@.len()
 //@ proof-before /^\s*result\s*$/ { self.expirations@.lemma_len0_is_empty(); }
@@ -422,9 +422,9 @@ impl Messages {
     // `Iterator::size_hint` cannot be given a specification (the trait is already externally specified by vstd).
     // Assumed contract = std's documented behaviour of `VecDeque::extend`; cross-checked by the bounded Kani
     // harness `messages_append_bounded` on the real function.
-//@fn src/collections/messages.rs Messages::append tags=C01,C08
+//@fn src/collections/messages.rs Messages::append tags=C01
 //@ attr #[verifier::external_body]
-//@ ensures[C01,C08] final(self)@ == old(self)@ + yielded(messages_iter), consumed(messages_iter)
+//@ ensures[C01] final(self)@ == old(self)@ + yielded(messages_iter), consumed(messages_iter)
 //@end
 
 //@fn src/collections/messages.rs Messages::len tags=C15
@@ -437,10 +437,10 @@ impl Messages {
 //@ ensures r == (self@.len() == 0)
 //@end
 
-//@fn src/collections/messages.rs Messages::pop_front tags=C03,C08
+//@fn src/collections/messages.rs Messages::pop_front tags=C08
 //@ ret r
 //@ ensures[C08] old(self)@.len() == 0 ==> r.is_none() && final(self)@ == old(self)@
-//@ ensures[C03,C08] old(self)@.len() > 0 ==> r == Some(old(self)@[0]) && final(self)@ == old(self)@.subrange(1, old(self)@.len() as int)
+//@ ensures[C08] old(self)@.len() > 0 ==> r == Some(old(self)@[0]) && final(self)@ == old(self)@.subrange(1, old(self)@.len() as int)
 //@end
 
 //@fn src/collections/messages.rs Messages::clear tags=C11
@@ -505,10 +505,19 @@ pub open spec fn lease_deadline_ok(dl: AckDeadline, now: int, d: nat) -> bool {
 /// the result of one pull from state `s` at instant `now`: the first n backlog messages in order, fresh
 /// consecutive ack ids, every deadline = now + d within the rounding slack
 pub open spec fn pulled_ok(v: Seq<PulledMessage>, s: SubView, n: int, now: int, d: nat) -> bool {
-    &&& v.len() == n
-    &&& n <= s.backlog.len()
-    &&& forall|i: int| 0 <= i < n ==> (#[trigger] v[i]).msg() == s.backlog[i] && v[i].id().v() == s.next + i
-            && lease_deadline_ok(v[i].dl(), now, d) && v[i].attempt() == 1
+    v.len() == n && pulled_msgs(v, s) && pulled_ids(v, s) && pulled_deadlines(v, now, d)
+}
+/// C08: the batch is the first |v| backlog messages in order
+pub open spec fn pulled_msgs(v: Seq<PulledMessage>, s: SubView) -> bool {
+    v.len() <= s.backlog.len() && forall|i: int| 0 <= i < v.len() ==> (#[trigger] v[i]).msg() == s.backlog[i]
+}
+/// C03: ack ids are the next unused ones, consecutive
+pub open spec fn pulled_ids(v: Seq<PulledMessage>, s: SubView) -> bool {
+    forall|i: int| 0 <= i < v.len() ==> (#[trigger] v[i]).id().v() == s.next + i
+}
+/// C04: every lease of the batch expires ack-deadline after the hand-out instant (rounding slack < 100 ms)
+pub open spec fn pulled_deadlines(v: Seq<PulledMessage>, now: int, d: nat) -> bool {
+    forall|i: int| 0 <= i < v.len() ==> lease_deadline_ok((#[trigger] v[i]).dl(), now, d)
 }
 pub open spec fn out_after_pull(s: SubView, v: Seq<PulledMessage>) -> Leases
     decreases v.len()
@@ -523,6 +532,13 @@ pub open spec fn modify_view(s: SubView, mods: Seq<DeadlineModification>) -> Sub
 }
 pub open spec fn pull_view(s: SubView, v: Seq<PulledMessage>) -> SubView {
     SubView { backlog: s.backlog.skip(v.len() as int), out: out_after_pull(s, v), next: s.next + v.len(), deleted: false }
+}
+/// what one pull returns from state s (conjunction of the C15 / C08 / C03 / C04 clauses of pull_messages)
+pub open spec fn pull_result_ok(v: Seq<PulledMessage>, s: SubView, max_count: u16, d: nat) -> bool {
+    &&& v.len() == pull_count(s.backlog.len() as int, max_count)
+    &&& pulled_msgs(v, s)
+    &&& pulled_ids(v, s)
+    &&& exists|now: Instant| pulled_deadlines(v, now.v(), d)
 }
 /// state after a Delete request: unchanged if already deleted; emptied and marked deleted; or (topic mailbox closed,
 /// the request fails) only marked deleted
@@ -539,8 +555,7 @@ pub open spec fn turn_ok(s: SubView, request: SubscriptionRequest, t: SubView, d
         SubscriptionRequest::GetInfo { responder } => t == s,
         SubscriptionRequest::PullMessages { max_count, responder } =>
             if s.deleted { t == s } else {
-                exists|v: Seq<PulledMessage>, now: Instant|
-                    pulled_ok(v, s, pull_count(s.backlog.len() as int, max_count), now.v(), d) && t == pull_view(s, v)
+                exists|v: Seq<PulledMessage>| pull_result_ok(v, s, max_count, d) && t == pull_view(s, v)
             },
         SubscriptionRequest::AcknowledgeMessages { ack_ids, responder } =>
             if s.deleted { t == s } else { t == (SubView { out: s.out.remove_keys(ack_ids@.to_set()), ..s }) },
@@ -588,12 +603,18 @@ impl SubscriptionActor {
         &&& self.ack_deadline() <= 0x2000_0000_0000_0000
     }
 
-//@fn src/subscriptions/subscription_actor.rs SubscriptionActor::receive tags=C01,C02,C03,C05,C11
+//@fn src/subscriptions/subscription_actor.rs SubscriptionActor::receive tags=C03
 //@ requires old(self).inv()
 //@ requires old(self)@.next + old(self)@.backlog.len() < u64::MAX
 //@ ensures final(self).inv()
 //@ # every request variant is dispatched to exactly its handler (state effect of one actor turn)
-//@ ensures[C01,C02,C03,C05,C11] turn_ok(old(self)@, request, final(self)@, old(self).ack_deadline())
+//@ ensures[C01] request is PostMessages ==> turn_ok(old(self)@, request, final(self)@, old(self).ack_deadline())
+//@ ensures[C03] request is PullMessages ==> turn_ok(old(self)@, request, final(self)@, old(self).ack_deadline())
+//@ ensures[C02] request is AcknowledgeMessages ==> turn_ok(old(self)@, request, final(self)@, old(self).ack_deadline())
+//@ ensures[C05] request is ModifyDeadline ==> turn_ok(old(self)@, request, final(self)@, old(self).ack_deadline())
+//@ ensures[C11] request is Delete ==> turn_ok(old(self)@, request, final(self)@, old(self).ack_deadline())
+//@ ensures[C02] (request is GetInfo || request is GetStats) ==> turn_ok(old(self)@, request, final(self)@, old(self).ack_deadline())
+//@ proof-after[C03] /let result = self\.pull_messages\(max_count\);/ { if !old(self)@.deleted { assert(pull_result_ok(result.unwrap()@, old(self)@, max_count, old(self).ack_deadline())); } }
 //@end
 
 //@fn src/subscriptions/subscription_actor.rs SubscriptionActor::get_info tags=C10
@@ -604,34 +625,43 @@ impl SubscriptionActor {
 //@ ensures[C10] final(self)@ == old(self)@
 //@end
 
-//@fn src/subscriptions/subscription_actor.rs SubscriptionActor::pull_messages tags=C03,C04,C08,C15
+//@fn src/subscriptions/subscription_actor.rs SubscriptionActor::pull_messages tags=C03
 //@ ret r
 //@ requires old(self).inv()
 //@ # A-ARITH: fewer than 2^64 deliveries per subscription
 //@ requires old(self)@.next + old(self)@.backlog.len() < u64::MAX
 //@ ensures[C03] final(self).inv()
-//@ ensures r.is_ok()
+//@ ensures[C03] r.is_ok()
 //@ ensures[C11] old(self)@.deleted ==> r.unwrap()@.len() == 0 && final(self)@ == old(self)@
-//@ # C15: batch size; C08: prefix of the backlog in order; C03: fresh ack ids; C04: deadline = hand-out + D
-//@ ensures[C03,C04,C08,C15] !old(self)@.deleted ==> exists|now: Instant| pulled_ok(r.unwrap()@, old(self)@, pull_count(old(self)@.backlog.len() as int, max_count), now.v(), old(self).ack_deadline())
+//@ # C15: batch size (incl. the u16 truncation of the backlog length); non-empty iff the backlog is non-empty
+//@ ensures[C15] !old(self)@.deleted ==> r.unwrap()@.len() == pull_count(old(self)@.backlog.len() as int, max_count)
+//@ # C08: the batch is the first n backlog messages, in order
+//@ ensures[C08] !old(self)@.deleted ==> pulled_msgs(r.unwrap()@, old(self)@)
+//@ # C03: fresh consecutive ack ids
+//@ ensures[C03] !old(self)@.deleted ==> pulled_ids(r.unwrap()@, old(self)@)
+//@ # C04: every deadline = hand-out instant + subscription ack deadline (within the rounding slack)
+//@ ensures[C04] !old(self)@.deleted ==> exists|now: Instant| pulled_deadlines(r.unwrap()@, now.v(), old(self).ack_deadline())
 //@ # C03: hand-out moves backlog -> outstanding in the same turn; nothing else changes
-//@ ensures[C01,C03] !old(self)@.deleted ==> final(self)@ == pull_view(old(self)@, r.unwrap()@)
-//@ loop 1 invariant self.inv(), !self.deleted, self.ack_deadline() == old(self).ack_deadline()
-//@ loop 1 invariant deadline.v() == now.v() + old(self).ack_deadline()
-//@ loop 1 invariant capacity == pull_cap(old(self)@.backlog.len() as int, max_count)
-//@ loop 1 invariant pulled_ok(result@, old(self)@, result@.len() as int, now.v(), old(self).ack_deadline())
-//@ loop 1 invariant self@.backlog =~= old(self)@.backlog.skip(result@.len() as int)
-//@ loop 1 invariant self@.out =~= out_after_pull(old(self)@, result@)
-//@ loop 1 invariant self@.next == old(self)@.next + result@.len()
-//@ loop 1 invariant epoch().v() <= now.v() <= now_max()
-//@ loop 1 invariant old(self)@.next + old(self)@.backlog.len() < u64::MAX
-//@ loop 1 invariant_except_break result@.len() == 0 || result@.len() < capacity
-//@ loop 1 ensures result@.len() == pull_count(old(self)@.backlog.len() as int, max_count)
+//@ ensures[C03] !old(self)@.deleted ==> final(self)@ == pull_view(old(self)@, r.unwrap()@)
+//@ loop 1 invariant[C03] self.inv(), !self.deleted, self.ack_deadline() == old(self).ack_deadline()
+//@ loop 1 invariant[C04] deadline.v() == now.v() + old(self).ack_deadline()
+//@ loop 1 invariant[C15] capacity == pull_cap(old(self)@.backlog.len() as int, max_count)
+//@ loop 1 invariant[C15] result@.len() <= old(self)@.backlog.len()
+//@ loop 1 invariant[C08] pulled_msgs(result@, old(self)@)
+//@ loop 1 invariant[C03] pulled_ids(result@, old(self)@)
+//@ loop 1 invariant[C04] pulled_deadlines(result@, now.v(), old(self).ack_deadline())
+//@ loop 1 invariant[C08] self@.backlog =~= old(self)@.backlog.skip(result@.len() as int)
+//@ loop 1 invariant[C03] self@.out =~= out_after_pull(old(self)@, result@)
+//@ loop 1 invariant[C03] self@.next == old(self)@.next + result@.len()
+//@ loop 1 invariant[C04] epoch().v() <= now.v() <= now_max()
+//@ loop 1 invariant[C03] old(self)@.next + old(self)@.backlog.len() < u64::MAX
+//@ loop 1 invariant_except_break[C15] result@.len() == 0 || result@.len() < capacity
+//@ loop 1 ensures[C15] result@.len() == pull_count(old(self)@.backlog.len() as int, max_count)
 //@ loop 1 decreases self.backlog@.len()
-//@ proof-after /let outgoing_len = / { lemma_trunc_u16(self.backlog@.len() as usize); }
-//@ proof-before /let ack_id = self\.next_ack_id;/ { assert(old(self)@.backlog.skip(result@.len() as int).len() == old(self)@.backlog.len() - result@.len()); }
+//@ proof-after[C15] /let outgoing_len = / { lemma_trunc_u16(self.backlog@.len() as usize); }
+//@ proof-before[C03] /let ack_id = self\.next_ack_id;/ { assert(old(self)@.backlog.skip(result@.len() as int).len() == old(self)@.backlog.len() - result@.len()); }
 //@ ghost-before /result\.push\(/ let ghost prev = result@;
-//@ proof-after /self\.outstanding\.add\(/ { assert(result@.drop_last() =~= prev); }
+//@ proof-after[C03] /self\.outstanding\.add\(/ { assert(result@.drop_last() =~= prev); }
 //@end
 
 //@fn src/subscriptions/subscription_actor.rs SubscriptionActor::acknowledge_messages tags=C02
@@ -659,7 +689,7 @@ impl SubscriptionActor {
 //@ proof-before /^\s*Ok\(\(\)\)\s*$/ { assert(self@.backlog =~= modify_view(old(self)@, deadline_modifications@).backlog); }
 //@end
 
-//@fn src/subscriptions/subscription_actor.rs SubscriptionActor::handle_expired_messages tags=C01,C04
+//@fn src/subscriptions/subscription_actor.rs SubscriptionActor::handle_expired_messages tags=C04
 //@ requires old(self).inv()
 //@ ensures final(self).inv()
 //@ # C04/C01: every expired lease's message goes back to the end of the backlog, nothing else changes
@@ -686,7 +716,7 @@ impl SubscriptionActor {
 //@ ensures[C11] r.is_err() ==> final(self)@ == (SubView { deleted: true, ..old(self)@ })
 //@end
 
-//@fn src/subscriptions/subscription_actor.rs SubscriptionActor::post_messages tags=C01,C08,C11
+//@fn src/subscriptions/subscription_actor.rs SubscriptionActor::post_messages tags=C01
 //@ requires old(self).inv()
 //@ ensures final(self).inv()
 //@ ensures[C11] old(self)@.deleted ==> final(self)@ == old(self)@
